@@ -1119,7 +1119,13 @@ where
     }
 
     fn read_u32_to_vec(&mut self, length: u32, vec: &mut Vec<u32>) -> Result<()> {
-        self.read_u32((length >> 2) as usize, vec)
+        self.read_u32((length >> 2) as usize, vec)?;
+        // consume the remaining bytes if the length is not a multiple of 4
+        let rem = length & 3;
+        if rem > 0 {
+            self.skip_bytes(rem)?;
+        }
+        Ok(())
     }
 
     fn read_to<W>(&mut self, length: u32, mut out: W) -> Result<()>
